@@ -1283,8 +1283,8 @@ func (w *world) reconcile(rec int, fail func(string, ...any)) *interp {
 		if len(w.env.Recorder.Warnings()) == 0 {
 			fail("%s: the pipeline failed (%s) but no warning event was recorded", ctx, it.outcome)
 		}
-		if it.outcome == "fatal" && !strings.Contains(fmt.Sprint(synced["message"]), it.fatalTok) {
-			fail("%s: the fatal result %q is not reported in the Synced condition: %v", ctx, it.fatalTok, synced)
+		if it.outcome == "fatal" && !strings.Contains(fmt.Sprint(synced["message"]), it.fatalTok) && !warningMentions(w.env.Recorder.Warnings(), it.fatalTok) {
+			fail("%s: the fatal result %q is reported neither in the Synced condition nor in a warning event: %v", ctx, it.fatalTok, synced)
 		}
 		if verifkit.JSON(before) != verifkit.JSON(after) {
 			fail("%s: the pipeline failed (%s) but composed resources changed:\n  before %s\n  after  %s", ctx, it.outcome, verifkit.JSON(before), verifkit.JSON(after))
@@ -1465,3 +1465,13 @@ func TestVerifC04PinnedStepError(t *testing.T) {
 type pinFail string
 
 var knownPath = os.Getenv("VERIF_KNOWN")
+
+// warningMentions reports whether some recorded warning event carries the token (a function-supplied message).
+func warningMentions(evs []verifenv.RecordedEvent, tok string) bool {
+	for _, e := range evs {
+		if strings.Contains(e.Message, tok) {
+			return true
+		}
+	}
+	return false
+}
